@@ -36,10 +36,13 @@ RULE = ("every (task, vocabulary size, multiset of items = truth x score vector 
         "(counted here as: at least two items, or a vocabulary of three or more tags, or a multilabel item)")
 TRUSTED_BASE = ["checks/c09.py (builds clips/annotations/predictions for an abstract item list, maps clip evaluations and "
                 "matches back to clip / item indices by uuid, encodes doubles as limb numbers)"]
-ASSUMPTIONS = ["scores k/4 and k/8 are exact in float32 and float64, so the encoded score vectors are the lattice vectors",
+ASSUMPTIONS = ["sound_event_detection: an unmatched prediction is an item with its scores and no true class, an unmatched "
+               "annotation an item with its class and all-zero scores (nothing was predicted for it)",
+               "scores k/4 and k/8 are exact in float32 and float64, so the encoded score vectors are the lattice vectors",
                "vocabulary of at least one tag; at least one evaluated item; sound_event_detection inputs contain at least "
                "one labelled item (mean average precision over nothing is undefined, DESIGN section 4 C09)",
-               "sound_event_detection is driven with identical, pairwise disjoint geometries only (matching itself is C08)"]
+               "sound_event_detection is driven with identical (matched) or pairwise disjoint / absent (unmatched) geometries "
+               "only: which events the matcher pairs is C08"]
 
 TASKS = {"cc": clip_classification, "cml": clip_multilabel_classification,
          "sec": sound_event_classification, "sed": sound_event_detection}
@@ -87,14 +90,19 @@ def _build(case):
         for j, i in enumerate(members):
             it = case["items"][i - 1]
             box = [20.0 * k + 4.0 * j + 1.0, 1000.0 * (j + 1), 20.0 * k + 4.0 * j + 3.0, 1000.0 * (j + 1) + 500.0]
-            se = data.SoundEvent(recording=_REC, geometry=data.BoundingBox(coordinates=box))
+            kind = it.get("m", "both")      # detection only: "pred"/"ann" = the event exists on one side (0: no geometry)
+            geom = (lambda: None) if kind.endswith("0") else (lambda: data.BoundingBox(coordinates=box))
+            se = data.SoundEvent(recording=_REC, geometry=geom())
             # classification: the prediction refers to the annotated sound event itself;
-            # detection: an own sound event with the same geometry (full overlap)
-            sp = se if case["task"] == "sec" else data.SoundEvent(recording=_REC, geometry=data.BoundingBox(coordinates=box))
-            item_of[se.uuid] = i
-            item_of[sp.uuid] = i
-            sas.append(data.SoundEventAnnotation(sound_event=se, tags=_truth_tags(case, it, T)))
-            sps.append(data.SoundEventPrediction(sound_event=sp, score=1.0, tags=_pred_tags(case, it, T)))
+            # detection: an own sound event with the same geometry (full overlap); the boxes of different
+            # items are disjoint in time and frequency, so one-sided events stay unmatched
+            sp = se if case["task"] == "sec" else data.SoundEvent(recording=_REC, geometry=geom())
+            if not kind.startswith("pred"):
+                item_of[se.uuid] = i
+                sas.append(data.SoundEventAnnotation(sound_event=se, tags=_truth_tags(case, it, T)))
+            if not kind.startswith("ann"):
+                item_of[sp.uuid] = i
+                sps.append(data.SoundEventPrediction(sound_event=sp, score=1.0, tags=_pred_tags(case, it, T)))
         extra = case["style"] and case["C"] >= 1
         anns.append(data.ClipAnnotation(clip=clip, sound_events=sas, tags=[T[0]] if extra else []))
         preds.append(data.ClipPrediction(clip=clip, sound_events=sps,
@@ -236,8 +244,11 @@ def random_cases(rng, tier):
                     left -= k
                 rng.shuffle(s)
                 items.append({"t": rng.randrange(C + 1), "y": [], "s": s})
-        if task == "sed" and not any(it["t"] for it in items):
-            continue
+        if task == "sed":
+            for it in items:
+                it["m"] = rng.choice(["both", "both", "both", "pred", "ann", "pred", "ann", "pred0", "ann0"])
+            if not any(it["t"] and not it["m"].startswith("pred") for it in items):
+                continue
         order = list(range(1, n + 1))
         rng.shuffle(order)
         if task in ("cc", "cml"):
